@@ -16,7 +16,9 @@ EXPLANATION = (
     "sentence: update_raw, reset_tags, boundaries copy, tags clone], write; store_tag_scores(true) iff --tag-scores. "
     "R20.4 (FDAI): evaluate's confusion counters for all (reference, system) label pairs, Nagata word counters for all "
     "(labels, matched, tags-equal) cases, and the precision/recall/F1 expression trees. R20.5 (E7): no I/O Result is "
-    "unwrapped/ignored in the tools' main functions."
+    "unwrapped/ignored in the tools' main functions. R20.6 (E4): evaluate collects, for the reference and for the system "
+    "sentence, one tag row per character (iteration count = copied boundaries + 1 or Sentence::len), row i = "
+    "tags()[i*n_tags .. (i+1)*n_tags]; the word metric compares these rows position by position."
 )
 NOT_DECIDED = ["clap argument parsing itself", "byte-level equality of the output with the library's", "I/O behaviour of stdin/stdout"]
 
@@ -94,7 +96,96 @@ def run(chk):
         chk.rule(rid, txt)
     predict_rules(chk, w)
     evaluate_rules(chk, w)
+    evaluate_tag_rows(chk, w)
     error_discipline(chk, w, "R20.5", ["predict::main", "predict::print_scores", "predict::print_tag_scores", "evaluate::main"], 20)
+
+
+def evaluate_tag_rows(chk, w):
+    """the word metric compares the tags of the reference and the system sentence position by position: both per-character
+    tag-row vectors have one row per character = boundaries + 1, row i = tags()[i * n_tags .. (i + 1) * n_tags]"""
+    import re
+    chk.rule("R20.6", "evaluate collects one tag row per character (boundaries + 1) for the reference and the system sentence, row i = tags[i*n_tags..(i+1)*n_tags]")
+    fn = "evaluate::main"
+    b, it, outs = C.run_fn(w, fn)
+    cf = cfgmod.cfg_of(b)
+    names, origin = C.iterator_names(b, outs)
+    rn = C.renamer(names)
+    rows = []
+    for bb, t in cfgmod.calls(b):
+        if (cfgmod.callee(t) or "") != C.S + "::tags":
+            continue
+        lp = cf.innermost_loop_of(bb)
+        if lp is None:
+            continue
+        h, blks = lp
+        # the iterator advanced by this loop
+        nx = [(bb2, t2) for bb2, t2 in cfgmod.calls(b) if bb2 in blks and (cfgmod.callee(t2) or "").endswith("::next") and cf.innermost_loop_of(bb2) and cf.innermost_loop_of(bb2)[0] == h]
+        itn = None
+        for bb2, t2 in nx:
+            a = t2["args"][0]
+            pl = a.get("move") or a.get("copy")
+            if not pl:
+                continue
+            loc = pl["local"]
+            for _ in range(4):
+                if loc in names:
+                    break
+                # `next(move _t)` with `_t = &mut *_u; _u = &mut iter` in the same block
+                for st in b.blocks[bb2]["stmts"]:
+                    if st["k"] == "assign" and st["place"]["local"] == loc and not st["place"]["proj"] and st["rv"]["k"] == "ref":
+                        loc = st["rv"]["place"]["local"]
+                        break
+            if loc in names:
+                itn = names[loc]
+        rows.append((bb, h, blks, itn))
+    chk.floor("R20.6", "tag row loops", len(rows), 2)
+    shapes = []
+    for k, (bb, h, blks, itn) in enumerate(rows):
+        if itn is None or itn not in origin:
+            chk.undecided("R20.6", "rows[%d]:iterator" % k, "the loop around Sentence::tags() at bb%d is not driven by a recognisable iterator" % bb, site=C.site(b, bb))
+            continue
+        arg, o = origin[itn]
+        nz = forms.Normalizer(it, o, rename=rn)
+        # number of iterations as a form
+        cnt = None
+        if arg[0] == "agg" and arg[1].endswith("Range"):
+            d = dict(arg[2])
+            cnt = forms.add(nz.form(d["end"]), nz.form(d["start"]), -1)
+        else:
+            ra = it.resolve(o, arg)
+            name = ra[1] if ra[0] == "sym" else None
+            info = nz.ret_info.get(name) if name else None
+            if info and (info[0] or "").endswith("RangeInclusive::new"):
+                cnt = forms.add(forms.add(nz.form(info[1][1]), nz.form(info[1][0]), -1), forms.const(1))
+        if cnt is None:
+            chk.undecided("R20.6", "rows[%d]:count" % k, "iteration count of the tag row loop (iterator %s) is not a range" % rn(C.show_arg(nz, arg)), site=C.site(b, h))
+            continue
+        cs = forms.show(cnt)
+        # the vector whose length bounds the loop: a copy of the sentence's boundaries
+        m = re.fullmatch(r"1 \+ alloc::vec::Vec::len\(&_(\d+)\)", cs)
+        src = None
+        if m:
+            for e, o2 in C.all_calls(outs, lambda e_: e_[4] == int(m.group(1)) if len(e_) > 4 else False):
+                src = forms.Normalizer(it, o2, rename=rn).call_atom(e[2], e[3])
+        # a copy (to_vec / to_owned / clone / From / Into) of boundaries()
+        ok = bool(m) and src is not None and re.fullmatch(r"[^()]*(to_vec|to_owned|clone|from|into)\(&\*\{vaporetto::sentence::Sentence::boundaries\(&_\d+\)\}\)", src or "") is not None
+        ok = ok or re.fullmatch(r"vaporetto::sentence::Sentence::len\(&_\d+\)", cs) is not None
+        # the boundaries themselves: 1 + boundaries().len()
+        ok = ok or re.fullmatch(r"1 \+ (\[T\]|alloc::vec::Vec)::len\(&\*\{vaporetto::sentence::Sentence::boundaries\(&_\d+\)\}\)", cs) is not None
+        chk.ob("R20.6", "rows[%d]:one-row-per-character" % k, ok,
+               "the tag row loop at bb%d runs `%s` times (bounding vector: %s); a sentence has boundaries + 1 characters and as many tag rows: with fewer rows the last word's tags are compared against the wrong row "
+               "(or, for a one-character line, last() of an empty vector panics)" % (h, cs, src), site=C.site(b, h), sample={"count": re.sub(r"_\d+", "_", cs), "source": re.sub(r"_\d+", "_", src or "")})
+        # the row: tags()[i * n_tags .. (i + 1) * n_tags]
+        I = "%s.next()@Some.0" % itn
+        idx = [x for x in C.all_calls(outs, lambda e_: e_[1] in blks and e_[2] and "Index" in e_[2] and len(e_[3]) > 1 and e_[3][1][0] == "agg" and "Range" in e_[3][1][1])]
+        got = set()
+        for e, o2 in idx:
+            sh = rn(C.show_arg(forms.Normalizer(it, o2, rename=rn), e[3][1]))
+            sh = re.sub(r"vaporetto::sentence::Sentence::n_tags\(&_\d+\)", "n_tags", sh).replace(I, "i")
+            got.add(sh)
+        shapes.append(got)
+        chk.ob("R20.6", "rows[%d]:row-slice" % k, got == {"Range{start: i*n_tags, end: n_tags + i*n_tags}"},
+               "tag row i is taken as tags()[%s]; specification tags()[i*n_tags .. (i+1)*n_tags]" % sorted(got), site=C.site(b, h), sample={"slices": sorted(got)})
 
 
 def predict_rules(chk, w):
